@@ -357,3 +357,28 @@ package roundrobin
 //@   ensures empty_records: result1 == nil ==> result0 != nil && fresh(result0) && fresh(result0.mtx) && len(result0.servers) == 0 && len(result0.ratings) == 0 && result0.next == handler && result0.errHandler != nil && result0.newMeter != nil && result0.backoffDuration != 0
 //@   ensures invariants_established: result1 == nil ==> rbPoolOK(result0) && rbUniq(result0) && rbDistinct(result0) && rbWeightsOK(result0)
 //@   loop 1 invariant rb != nil && fresh(rb) && fresh(rb.mtx) && len(rb.servers) == 0 && len(rb.ratings) == 0 && rb.next == handler
+
+// The default meter: the rating of a server is the share of its responses whose status lies in [codeS, codeE)
+// (500..504 for the meter NewRebalancer installs) among all its responses in the rolling window.
+//@ func (*codeMeter).Record
+//@   props C10
+//@   holds Rebalancer.mtx
+//@   assume clock_stable
+//@   requires n != nil && ratioOK(n.r)
+//@   modifies external
+//@   ensures failures_count_against_the_server: code >= n.codeS && code < n.codeE ==> calls(IncA) == 1 && calls(IncB) == 0 && callarg(IncA, 0, 0) == n.r && callarg(IncA, 0, 1) == 1
+//@   ensures other_responses_count_for_it: !(code >= n.codeS && code < n.codeE) ==> calls(IncB) == 1 && calls(IncA) == 0 && callarg(IncB, 0, 0) == n.r && callarg(IncB, 0, 1) == 1
+//@ func (*codeMeter).Rating
+//@   props C10
+//@   holds Rebalancer.mtx
+//@   assume clock_stable
+//@   requires n != nil && ratioOK(n.r)
+//@   modifies external
+//@   ensures rating_is_the_failure_ratio: calls(Ratio) == 1 && callarg(Ratio, 0, 0) == n.r && result == callres(Ratio, 0, 0)
+//@ func (*codeMeter).IsReady
+//@   props C10
+//@   holds Rebalancer.mtx
+//@   assume clock_stable
+//@   requires n != nil && ratioOK(n.r)
+//@   modifies external
+//@   ensures ready_when_the_window_is_full: calls(IsReady) == 1 && result == callres(IsReady, 0, 0)
